@@ -46,8 +46,6 @@ def b01 (b : Bool) : String := if b then "1" else "0"
 
 def psStr (ps : Csv.PState) : String := "err=" ++ b01 ps.error ++ " pos=" ++ toString ps.errorPos
 
-def KF_EMPTYBACK := "C18.csv_next_emptyback"
-def KF_AT := "C18.utf8_at_unchecked"
 def KF_NUL := "C18.utf8_nul_dropped"
 
 /-- `lines`: the client loop (`deserialize`, then `deserialize_next` while it returns true). -/
@@ -66,7 +64,7 @@ def feedLoop (cfg : Csv.Cfg) : List (List UInt8) → String → Csv.Row → Csv.
   | l :: ls, rets, out, ps =>
     match Csv.deserializeNext cfg ps out l with
     | .done r o p => feedLoop cfg ls (rets ++ b01 r) o p
-    | .hazardEmptyBack => "rets=" ++ rets ++ " hazard=emptyback kf=" ++ KF_EMPTYBACK
+    | .hazardEmptyBack => "rets=" ++ rets ++ " hazard=emptyback"
 
 def csvCmd (cfg : Csv.Cfg) (op arg : String) : String :=
   match op with
@@ -74,13 +72,13 @@ def csvCmd (cfg : Csv.Cfg) (op arg : String) : String :=
   | "de" =>
     match Csv.deserialize cfg {} (parseBytes arg) with
     | .done r o p => "model=ret=" ++ b01 r ++ " " ++ psStr p ++ " out=" ++ showList o
-    | .hazardEmptyBack => "model=hazard=emptyback kf=" ++ KF_EMPTYBACK
+    | .hazardEmptyBack => "model=hazard=emptyback"
   | "rt" =>
     let row := parseList arg
     let s := Csv.serialize cfg row
     let m := match Csv.deserialize cfg {} s with
       | .done r o p => "model=ser=" ++ showBytes s ++ " ret=" ++ b01 r ++ " " ++ psStr p ++ " out=" ++ showList o
-      | .hazardEmptyBack => "model=hazard=emptyback kf=" ++ KF_EMPTYBACK
+      | .hazardEmptyBack => "model=hazard=emptyback"
     -- the domain of theorem csv_roundtrip
     if cfg.sep ≠ cfg.enc ∧ row ≠ [[]] then
       m ++ " spec=ser=" ++ showBytes s ++ " ret=0 err=0 pos=0 out=" ++ showList row
@@ -94,14 +92,14 @@ def csvCmd (cfg : Csv.Cfg) (op arg : String) : String :=
     let m := match ls with
       | [] => match Csv.deserialize cfg {} [] with
         | .done r o p => "model=" ++ pre ++ " used=0 ret=" ++ b01 r ++ " " ++ psStr p ++ " out=" ++ showList o
-        | .hazardEmptyBack => "model=" ++ pre ++ " used=0 hazard=emptyback kf=" ++ KF_EMPTYBACK
+        | .hazardEmptyBack => "model=" ++ pre ++ " used=0 hazard=emptyback"
       | l :: rest => match Csv.deserialize cfg {} l with
         | .done r o p =>
           match linesLoop cfg rest 1 r o p with
           | (some (used, r, o, p), _) =>
             "model=" ++ pre ++ " used=" ++ toString used ++ " ret=" ++ b01 r ++ " " ++ psStr p ++ " out=" ++ showList o
-          | (none, used) => "model=" ++ pre ++ " used=" ++ toString used ++ " hazard=emptyback kf=" ++ KF_EMPTYBACK
-        | .hazardEmptyBack => "model=" ++ pre ++ " used=0 hazard=emptyback kf=" ++ KF_EMPTYBACK
+          | (none, used) => "model=" ++ pre ++ " used=" ++ toString used ++ " hazard=emptyback"
+        | .hazardEmptyBack => "model=" ++ pre ++ " used=0 hazard=emptyback"
     -- the domain of theorem csv_linewise
     if cfg.sep ≠ cfg.enc ∧ cfg.sep ≠ Csv.LF ∧ cfg.enc ≠ Csv.LF ∧ row ≠ [[]] then
       m ++ " spec=" ++ pre ++ " used=" ++ toString k ++ " ret=0 err=0 pos=0 out=" ++ showList row
@@ -112,7 +110,7 @@ def csvCmd (cfg : Csv.Cfg) (op arg : String) : String :=
     | l :: ls =>
       match Csv.deserialize cfg {} l with
       | .done r o p => "model=" ++ feedLoop cfg ls (b01 r) o p
-      | .hazardEmptyBack => "model=rets= hazard=emptyback kf=" ++ KF_EMPTYBACK
+      | .hazardEmptyBack => "model=rets= hazard=emptyback"
   | _ => "bad-op"
 
 /-! ### utf8 -/
@@ -151,7 +149,8 @@ def u8Cmd (op : String) (args : List String) : String :=
       match Utf8.pluginAt (Utf8.ofBytes (parseBytes h)) a0 with
       | .ok v => "model=ok I:" ++ toString v
       | .invalidArgs => "model=rerr invalid"
-      | .hazardOob => "model=hazard oob kf=" ++ KF_AT
+      | .indexRange => "model=rerr range"
+      | .hazardOob => "model=hazard oob"
   | "substr", [h, p, n] =>
     let s := Utf8.ofBytes (parseBytes h)
     let r := match parseInt p, (if n = "-" then none else parseInt n) with
@@ -161,6 +160,7 @@ def u8Cmd (op : String) (args : List String) : String :=
     match r with
     | some (.ok b) => "model=ok S:" ++ showBytes b
     | some .invalidArgs => "model=rerr invalid"
+    | some .indexRange => "model=rerr range"
     | some .hazardOob => "model=hazard oob"
     | none => "bad-op"
   | "remove", [h, p, n] =>
@@ -169,6 +169,7 @@ def u8Cmd (op : String) (args : List String) : String :=
       match Utf8.pluginRemove (Utf8.ofBytes (parseBytes h)) a0 a1 with
       | .ok (b, s) => "model=ok B:" ++ b01 b ++ " " ++ stateStr s
       | .invalidArgs => "model=rerr invalid"
+      | .indexRange => "model=rerr range"
       | .hazardOob => "model=hazard oob"
     | _, _ => "bad-op"
   | "insert", [h, p, u] =>
@@ -177,6 +178,7 @@ def u8Cmd (op : String) (args : List String) : String :=
       match Utf8.pluginInsert (Utf8.ofBytes (parseBytes h)) a0 a1 with
       | .ok (b, s) => "model=ok B:" ++ b01 b ++ " " ++ stateStr s
       | .invalidArgs => "model=rerr invalid"
+      | .indexRange => "model=rerr range"
       | .hazardOob => "model=hazard oob"
     | _, _ => "bad-op"
   | "insertc", [h, p, h2] =>
@@ -186,6 +188,7 @@ def u8Cmd (op : String) (args : List String) : String :=
       match Utf8.pluginInsertC (Utf8.ofBytes (parseBytes h)) a0 o with
       | .ok (k, s) => "model=ok I:" ++ toString k ++ " " ++ stateStr s
       | .invalidArgs => "model=rerr invalid"
+      | .indexRange => "model=rerr range"
       | .hazardOob => "model=hazard oob"
     | none => "bad-op"
   | _, _ => "bad-op"
